@@ -77,7 +77,9 @@ def identify(identification: Identification) -> Expression:
                 n_nodes=len(vertices),
             )
         parents = list(graph.topological_sort())
-        expression = Product.safe(p_parents(v, parents) for v in district_without_treatment)
+        expression = Product.safe(
+            p_parents(v, parents, identification.estimand) for v in district_without_treatment
+        )
         ranges = district_without_treatment - outcomes
         return Sum.safe(
             expression=expression,
@@ -316,19 +318,36 @@ def line_7(identification: Identification) -> Identification:
             return Identification.from_parts(
                 outcomes=outcomes,
                 treatments=treatments & district,
-                estimand=Product.safe(p_parents(v, parents) for v in district),
+                estimand=Product.safe(
+                    p_parents(v, parents, identification.estimand) for v in district
+                ),
                 graph=graph.subgraph(district),
             )
 
     raise ValueError("Could not identify suitable district")
 
 
-def p_parents(child: Variable, ordering: Sequence[Variable]) -> Probability:
+def p_parents(
+    child: Variable, ordering: Sequence[Variable], estimand: Expression | None = None
+) -> Expression:
     """Get a probability expression based on a topological ordering.
 
     :param child: The child variable
     :param ordering: A topologically ordered sequence of all variables. All occurring before the
         child will be used as parents.
+    :param estimand: The distribution over the variables in the ordering from which the conditional
+        is taken. If none is given, or it is (a marginal of) the observational distribution, the
+        conditional is written directly as a probability.
     :return: A probability expression
     """
-    return P(child | ordering[: ordering.index(child)])
+    index = ordering.index(child)
+    if estimand is None or _is_observational(estimand):
+        return P(child | ordering[:index])
+    # P'(v_i | v_pi^(i-1)) = sum_{later} P' / sum_{later, v_i} P'
+    return Sum.safe(estimand, ordering[index + 1 :]) / Sum.safe(estimand, ordering[index:])
+
+
+def _is_observational(estimand: Expression) -> bool:
+    if isinstance(estimand, Sum):
+        estimand = estimand.expression
+    return isinstance(estimand, Probability) and not estimand.parents
